@@ -95,8 +95,9 @@ def toVal : Tok → Tok
   | .text s => .val s
   | t => t
 
-/-- what a later pass sees of a spliced-in text: it is scanned again -/
-def lexVal (cfg : Cfg) (s : Str) : List Tok := (lex cfg s).map toVal
+/-- what a later pass sees of a spliced-in text: it is scanned again (an empty text leaves an empty, invisible
+    piece so that every splice is accounted for) -/
+def lexVal (cfg : Cfg) (s : Str) : List Tok := if s = [] then [.val []] else (lex cfg s).map toVal
 
 /-! ### the passes on tokens -/
 
@@ -236,13 +237,14 @@ def incTok (cfg : Cfg) (reg : Reg) (rec : List Tok → Except Err (List Tok × L
   | t => .ok [t]
 
 /-- `translate` on tokens: (output tokens, warned names) -/
-def renderTok (cfg : Cfg) (reg : Reg) (ctx : Ctx) : Nat → List Tok → Except Err (List Tok × List Str)
+def renderTok (cfg : Cfg) (strict : Bool) (reg : Reg) (ctx : Ctx) :
+    Nat → List Tok → Except Err (List Tok × List Str)
   | 0, _ => .error .recursion
   | fuel + 1, ts =>
     let miss := (varNames ts).filter (fun n => !isBound ctx n)
-    if cfg.strict && !miss.isEmpty then .error .value else
+    if strict && !miss.isEmpty then .error .value else
     let t2 := loopPass cfg ctx (condPass ctx ts)
-    match flatMapM (incTok cfg reg (fun b => renderTok cfg reg ctx fuel b)) t2 with
+    match flatMapM (incTok cfg reg (fun b => renderTok cfg strict reg ctx fuel b)) t2 with
     | .error e => .error e
     | .ok t3 =>
       match flatMapM (tokA cfg ctx) t3 with
@@ -305,7 +307,7 @@ def parse (ts : List Tok) : Option Tmpl := parseGo .out ts
 /-! ### specification: one left-to-right expansion -/
 
 /-- a value enters the output as one inert piece -/
-def valTok (v : Str) : List Tok := if v = [] then [] else [.val v]
+def valTok (v : Str) : List Tok := [.val v]
 
 def pipeSem (cfg : Cfg) (ctx : Ctx) (n a : Str) : Except Err (List Tok) :=
   if isWordStr cfg a && cfg.filters.contains a then
@@ -380,10 +382,10 @@ def specToks (cfg : Cfg) (reg : SReg) (ctx : Ctx) : Nat → Tmpl → Except Err 
 def specMissing (out : List Tok) : List Str := varNames out
 
 /-- rendered text of the specification; in strict mode an unbound plain variable is an error -/
-def renderSpec (cfg : Cfg) (reg : SReg) (ctx : Ctx) (fuel : Nat) (t : Tmpl) : Except Err Str :=
+def renderSpec (cfg : Cfg) (strict : Bool) (reg : SReg) (ctx : Ctx) (fuel : Nat) (t : Tmpl) : Except Err Str :=
   match specToks cfg reg ctx fuel t with
   | .error e => .error e
-  | .ok out => if cfg.strict && !(specMissing out).isEmpty then .error .value else .ok (printToks out)
+  | .ok out => if strict && !(specMissing out).isEmpty then .error .value else .ok (printToks out)
 
 def tokReg (reg : SReg) : Reg := reg.map (fun p => (p.1, flatten p.2))
 
